@@ -112,6 +112,11 @@ CHECKS = {
             "and the pre-repair IAN copy is refuted; a limit lint's error implies its stricter companion's finding for every measured value; a mirror rule applied to equal fields gives equal answers. The other copies are tied to the code "
             "only through the pair monitor: generated SAN=IAN, issuer=subject, both-scope, boundary-validity and name-length certificates plus the corpus where a pair's precondition holds; every pair must be exercised.",
             "DESIGN.md 5/C20", "Most pair members are not modelled individually; agreement for them is explored, not proved."),
+    "C02": (True, "Coq theorems (fatal-origin for the framework; panic-freedom of the explicitText walker modelled with explicit out-of-range outcomes) + in-Coq walker correspondence + directed hostile inputs and structure-aware mutation through the three entry points",
+            "Proof (partial): a fatal result of a certificate lint is the body's own decision, a configuration error, or the report of a recovered panic, so panic-free lint code never yields the panic report; CRL/OCSP linting returns iff nothing panics; "
+            "the explicitText control-character walker never indexes out of range for any byte string (and without its bound check it does on [0xC2], the defect that was repaired). Explored: all other rule bodies - no Coq semantics of ~375 Go "
+            "bodies can be built here - by directed generation at the index/slice/type-assertion sites (hostile extension contents, name shapes) and structure-aware mutants of the corpus (30k in thorough), only inputs the parsers accept.",
+            "DESIGN.md 5/C02", "A parser that itself panics on a mutant counts as not accepting it. Coverage of risk sites is not measured (go build -cover join not built)."),
 }
 
 REASON_PENDING = "check not built yet in this session; planned (see DESIGN.md section 5)"
